@@ -44,7 +44,7 @@ structure RecOps where
   /-- `index * get_entry_size()` (getter / setter) -/
   getOff : BitVec 64 → BitVec 64 → BitVec 64
   setOff : BitVec 64 → BitVec 64 → BitVec 64
-  /-- the two guards of the setter (fixes/16): `get_entry_size() < sizeof(T)`, `get_data() == nullptr` -/
+  /-- the two guards of the setter (fixes/21): `get_entry_size() < sizeof(T)`, `get_data() == nullptr` -/
   setSmall : BitVec 64 → Bool
   setNodata : Bool → Bool
   /-- widening of the converted field values on the way out -/
@@ -239,7 +239,7 @@ def setWrites (ops : RecOps) (enc : Enc) (b : SecBuf) (index : BitVec 64) (e : E
             else pure d
     pure { b with data := d }
 
-/-- `generic_set_entry_rel<T>` / `generic_set_entry_rela<T>` : since fixes/16 behind the same two guards
+/-- `generic_set_entry_rel<T>` / `generic_set_entry_rela<T>` : since fixes/21 behind the same two guards
     as the getters (entry size below `sizeof(T)`; no data) -/
 def setGeneric (ops : RecOps) (enc : Enc) (b : SecBuf) (index : BitVec 64) (e : Entry) : M SecBuf :=
   if ops.setSmall b.entSize then pure b else
